@@ -53,7 +53,9 @@ def _array_case(draw):
     for _ in range(draw(st.integers(0, 5))):
         ex = draw(st.sampled_from(bx)) if isinstance(bx, list) else draw(st.floats(0, 8))
         ey = draw(st.sampled_from(by)) if isinstance(by, list) else draw(st.floats(0, 8))
-        on_edges.append([draw(st.integers(0, n - 1)), ex, ey])
+        # exactly on the edge, or a hair off it (one ulp, or 2e-6 relative: inside the tolerance of an `isclose`)
+        nudge = st.sampled_from([0, 0, 0, 1, -1, 2, -2])
+        on_edges.append([draw(st.integers(0, n - 1)), ex, ey, draw(nudge), draw(nudge)])
     return dict(arm='array', n=n, kind=kind, data_seed=draw(st.integers(0, 2 ** 20)), on_edges=on_edges,
                 bins_form=form, bx=bx, by=by, integer=draw(st.booleans()) if kind == 'grid' else False)
 
@@ -113,8 +115,17 @@ def _events(c):
         X = np.concatenate([rng.normal(2, 0.4, size=(n // 2, 2)), rng.uniform(-2, 12, size=(n - n // 2, 2))])
     else:
         X = np.concatenate([rng.normal(2, 0.5, size=(n // 2, 2)), rng.normal(6, 0.8, size=(n - n // 2, 2))])
-    for r, ex, ey in c['on_edges']:
-        X[r] = [ex, ey]
+    def nudged(v, k):
+        v = float(v)
+        if k in (1, -1):
+            return float(np.nextafter(v, math.inf if k > 0 else -math.inf))
+        if k in (2, -2):
+            return v + (2e-6 * max(abs(v), 1e-3)) * (1 if k > 0 else -1)
+        return v
+    for oe in c['on_edges']:
+        r, ex, ey = oe[:3]
+        kx, ky = (oe[3], oe[4]) if len(oe) > 3 else (0, 0)
+        X[r] = [nudged(ex, kx), nudged(ey, ky)]
     if c.get('integer'):
         X = np.round(X).astype(np.int64)
     return X
